@@ -314,10 +314,10 @@ theorem loop_spec [Sqrt α] [FinTest α] (P : Prog α) (mufx : α) (par : Params
         (newton k x u v st).2.2.2 with
     | next x1 u1 v1 st1 =>
       have e : loop P mufx par newton (fuel + 1) k x u v st kkt =
-          loop P mufx par newton fuel (k + 1) x1 u1 v1 st1 (kktTest P x1 u1 v1) := by
+          loop P mufx par newton fuel (k + 1) x1 u1 v1 st1 (kktTest P false x1 u1 v1) := by
         simp only [loop, hit]
       rw [e]
-      rcases loop_spec P mufx par newton fuel (k + 1) x1 u1 v1 st1 (kktTest P x1 u1 v1) with ⟨a1, a2, a3⟩ |
+      rcases loop_spec P mufx par newton fuel (k + 1) x1 u1 v1 st1 (kktTest P false x1 u1 v1) with ⟨a1, a2, a3⟩ |
         ⟨j, xj, uj, vj, stj, b1, b2, b3, b4⟩
       · left
         refine ⟨a1, by rw [a2]; omega, ?_⟩
